@@ -423,6 +423,8 @@ class Repo(object):
             objflat.nest_workers(tree)
             objflat._link(tree)
             objflat.inline_generators(tree, lambda name, tree=tree, rel=rel: self._generator_named(tree, rel, name))
+            objflat.unmap_loops(tree)
+            objflat.unmemoise_locals(tree)
             if rel in FLATTEN_CLASSES:
                 flattened = objflat.flatten(tree)
             else:
